@@ -183,6 +183,7 @@ def _overrides(paths, tier, wrapping="plain"):
         if p.split(".")[-1] == "m4":
             # a lazily evaluated list result whose iteration fails after the first item was handed out
             yield {p: "lazy-err"}
+            yield {p: "lazy-sized-err"}
     if tier == "thorough":
         tops = [p for p in paths if "." not in p]
         for p, q in itertools.combinations(tops, 2):
